@@ -98,3 +98,13 @@ claim('C18',
        'regular unchanging file with full reads. The pinned FNV loop condition (`*dp && nbytes > 0`: stops at NUL, reads data[nbytes]) was a genuine defect and is repaired by a fix commit; the gcc (__GNUC__) branch of the FNV multiplication is the one modelled, the #else multiplier is proved equal.',
   technique='Rocq proof: induction over blocks, generic streaming refinement (Init/Update/Final vs one-shot padding), finite computation for the step schedule, mod-2^w arithmetic by lia; constants and step list translated from source; extracted-model correspondence with guard-page harness',
   design='5.18')
+claim('C13',
+  text='Three layers. (1) For each of the ~100 operations of the property\'s mix (put/add/push, get, remove/pop, clear, toarray/tostring, reverse, sort, ... of tree table, hash table, list table, list, vector and the queue/stack/grow wrappers) '
+       'the control-flow abstraction regenerated from clang\'s AST is accepted by a checker verified in Coq: on EVERY path each access to mutable container state (fields written outside the constructor, and nodes reached through them) happens at lock depth >= 1, '
+       'there is a single critical section, and the call ends at depth 0 (C13_discipline). (2) Generic theorem (C13_linearizable): for calls with that discipline, after any interleaving at the granularity of lock operations and single shared accesses the final state and every '
+       'call\'s result equal those of the calls run one at a time in order of first lock acquisition - no lost, duplicated or half-applied update; a walk under an outer lock() is one critical section, hence one snapshot. (3) The sequential meaning of the critical sections is C01-C10. '
+       'Pre-lock reads of the element count in qvector addat/addlast/toarray and qlist toarray/tostring were repaired in /repo. Search engines for a failing schedule: multiset stress on plain and ThreadSanitizer builds.',
+  note='Partial by nature: lock-level model under sequential consistency; real memory-model effects, pthread internals and timing are outside it. The link from the per-path discipline (layer 1, on the abstraction) to `wl` of layer 2 is by reading, not a Coq lemma. '
+       'Fresh blocks allocated by the call itself, caller-owned arguments, and the node qlisttbl_removeobj has already unlinked are treated as private (reviewed rules in gen_lockast.py). size()/datasize() read the count without the lock and are outside the operation mix.',
+  technique='source-to-Coq translation of lock/access structure + verified path checker + generic Rocq linearizability theorem; TSan/multiset stress as failing-schedule search',
+  design='5.13')
